@@ -1,8 +1,8 @@
 import CanvasModel.Driver
-import CanvasModel.C06
+import CanvasModel.C06Proto
 import CanvasGen.SweepF
 open Canvas
 def handle : List String → Option String
   | "L1" :: name :: args => GenF.dispatchSweep name args
-  | ts => Canvas.C06.handle ts
+  | ts => Canvas.C06.handleAll ts
 def main : IO Unit := runDriver handle
